@@ -357,20 +357,29 @@ def get_tree_diff(
     )
 
     # Handle tree structure difference
-    nodes_removed = list(data_both[data_both[indicator_col] == "left_only"][path_col])[
-        ::-1
-    ]
-    nodes_added = list(data_both[data_both[indicator_col] == "right_only"][path_col])[
-        ::-1
-    ]
-    for node_removed in nodes_removed:
-        data_both[path_col] = data_both[path_col].str.replace(
-            node_removed, f"{node_removed} (-)", regex=True
-        )
-    for node_added in nodes_added:
-        data_both[path_col] = data_both[path_col].str.replace(
-            node_added, f"{node_added} (+)", regex=True
-        )
+    nodes_removed = set(data_both[data_both[indicator_col] == "left_only"][path_col])
+    nodes_added = set(data_both[data_both[indicator_col] == "right_only"][path_col])
+
+    def _add_suffix(path: str) -> str:
+        """Add suffix to every node along the path that is removed or added.
+
+        Args:
+            path (str): path of node
+
+        Returns:
+            (str)
+        """
+        path_list = path.split(tree.sep)
+        new_path_list = path_list.copy()
+        for idx in range(1, len(path_list)):
+            sub_path = tree.sep.join(path_list[: idx + 1])
+            if sub_path in nodes_removed:
+                new_path_list[idx] += " (-)"
+            elif sub_path in nodes_added:
+                new_path_list[idx] += " (+)"
+        return tree.sep.join(new_path_list)
+
+    data_both[path_col] = data_both[path_col].apply(_add_suffix)
 
     # Check tree attribute difference
     path_changes_list_of_dict: List[Dict[str, Dict[str, Any]]] = []
@@ -401,7 +410,9 @@ def get_tree_diff(
         ]
     data_both = data_both[[path_col]]
     if len(data_both):
-        tree_diff = construct.dataframe_to_tree(data_both, node_type=tree.__class__)
+        tree_diff = construct.dataframe_to_tree(
+            data_both, sep=tree.sep, node_type=tree.__class__
+        )
         # Handle tree attribute difference
         if len(path_changes_deque):
             path_changes_list = sorted(path_changes_deque, reverse=True)
@@ -411,6 +422,6 @@ def get_tree_diff(
             path_changes_list_of_dict.extend(name_changes_list)
             for attr_change_dict in path_changes_list_of_dict:
                 tree_diff = construct.add_dict_to_tree_by_path(
-                    tree_diff, attr_change_dict
+                    tree_diff, attr_change_dict, sep=tree.sep
                 )
         return tree_diff
